@@ -42,7 +42,7 @@ CLAIMED = {
             "arbitrary resolved neighbour function, universe test and filter; and at the level of the WORLD (EG.TravOps: pre-flight checks, resolution of neighbors(), loop, cut at the first exception): "
             "C06_world_exact / _agree / _ff_result / _preflight for every world where neighbors() of every vertex returns without None. Tie to the code: every ordered link list over {D,U,X} on 2-3 vertices x starts "
             "x universes x 3x3 modes, list and generator forms, plus random multigraphs; model-free fixpoint-reachability oracle.",
-            "The encoding of a raising neighbors() / a None neighbour as pseudo-vertices (EG.TravOps) is covered by the world-level theorems only for total graphs; its error paths are validated by the correspondence.",
+            "The encoding of a raising neighbors() / a None neighbour as pseudo-vertices (EG.TravOps) is covered by C06_world_exact / _agree only for total graphs; for a raising neighbors() C06_world_error_prefix proves that what has been yielded is a duplicate-free reachable prefix, and C06_world_none_is_yielded covers a None neighbour; the rest of the error paths is validated by the correspondence.",
             "DESIGN.md 3/C06"),
     "C07": ("Lean 4 proof: BFS distance monotonicity and listing order, DFS white-path segments, explicit-stack DFS = recursive DFS on reversed lists; correspondence on exhaustive ordered multigraphs",
             "Theorems C07_bft_monotone_distance (a hop-distance function exists for which every listed vertex is at its exact shortest distance and the distance never "
@@ -51,7 +51,7 @@ CLAIMED = {
             "C07_bft_rename_equivariant, C07_dftRecursive_rename_equivariant, C07_dftIterative_rename_equivariant (under ANY injective renaming of the vertices the listing of the renamed graph is the "
             "image, position by position, of the listing of the original: the order depends on link order alone, not on object identity). Tie: as C06, comparing SEQUENCES, "
             "plus an independent textbook BFS/DFS oracle in Python and a repeat-call check.",
-            "'Rebuild the same graph in the same order' is by construction in the model (outputs are functions of nb/inU); on the real code it is exercised by re-running scripts with fresh objects.",
+            "'Rebuild the same graph in the same order' is C07_world_function_of_link_order (worlds agreeing on links, ends, link classes and members list identically) and the renaming theorems of C07Rename; on the real code it is exercised by re-running scripts with fresh objects.",
             "DESIGN.md 3/C07"),
     "C08": ("Lean 4 proof: each search loop = find? of its traversal (lock-step induction); correspondence with falsy vertices and ==-but-not-identical values",
             "Theorems C08_bfs_eq_find, C08_dfsIterative_eq_find (every fuel), C08_dfsRecursive_eq_find (sufficient fuel), C08_first_match, C08_start_eligible, and C08_world_first_match (the three search ENTRY POINTS "
@@ -107,7 +107,7 @@ CLAIMED = {
             "Correspondence: every dict over <=3 vertices with value lists <=2 (sampled in quick), every 0/1 matrix up to 3x3 with arbitrary truthy/falsy cell values, malformed inputs, prior links/universes; "
             "the oracle reads the result back with neighbors()/find_links on the real code.",
             "Read-back theorems C11_dict_readback_any / _directed / _undirected (multiplicity of y among neighbors(x) = multiplicity of the listed pairs, symmetric closure for undirected types, a self entry once) are "
-            "proved for load_adj_dict and vertices without prior links; for load_adj_matrix read-back is checked by the oracle on the real code only.", "DESIGN.md 3/C11"),
+            "proved for load_adj_dict and for load_adj_matrix (C11_matrix_readback_any / _directed / _undirected), for vertices without prior links; with prior links read-back is checked by the oracle on the real code.", "DESIGN.md 3/C11"),
     "C12": ("Lean 4 proof: non-interference of caller-side edits of handed-out containers over all histories (alias-free model); the exchange discipline of the real code (92 exchange point x state rows) regenerated on every run and re-proved leak-free by kernel evaluation; correspondence that really mutates every exchanged container",
             "Regenerated on every run (harness/tables_alias.py): for every point at which a collection is handed out or taken in, caching off / on / on for one class, from a miss and from a hit, the caller's "
             "collection is edited in every way its type allows; C12_exchange_no_leak (no row changes anything observable: the code IS the alias-free model), C12_exchange_table_complete. Theorem C12_noninterference: in the model every accessor/query returns a value, so for every history interleaving public calls with arbitrary edits of any container handed out so far, "
@@ -150,7 +150,7 @@ CLAIMED = {
             "Regenerated on every run (272 rows = 16 sets of classes having an instance x 17 calls: constructions with ordinary / raising / clearing-from-inside constructors, per-class and global clears; classes: "
             "a class, its subclass, a class with falsy instances, a class whose metaclass derives from TrueSingleton): C18_ts_impl_eq_model, C18_ts_impl_eq_spec, C18_ts_table_complete, by decide +kernel. "
             "Theorems C18_wf_all_histories, C18_same_between_clears (arbitrary intervening operations on other classes), C18_init_once_first_args, C18_per_class, C18_distinct_instances, C18_clear_isolated, "
-            "C18_clear_all, C18_clear_absent_harmless. Correspondence over three classes (one a subclass) with instance dict and __init__ log compared after every call.",
+            "C18_clear_all, C18_clear_absent_harmless. Correspondence over four classes (a subclass, a class with falsy instances, a class whose metaclass derives from the library's; plus an alias class whose __new__ forwards to another singleton class, judged by a direct oracle) with instance dict and __init__ log compared after every call.",
             "", "DESIGN.md 3/C18"),
     "C20": ("Lean 4 proof: for every admissible answer of the RNG oracle randgraph returns without raising a universe of exactly count well-formed vertices; k <= count whatever the float product; correspondence with logged real draws replayed on both sides",
             "Theorems C20_k_le_count (whatever randint returned and however r*connectivity rounds, the sample size never exceeds the population), C20_k_pos, C20_builds (exactly count members carrying i=0..count-1, "
